@@ -68,8 +68,15 @@ class Canonicalizer:
     def _canonicalize_variable(self, variable: Variable) -> Variable:
         return variable
 
-    def _sorted_key(self, variable: Variable) -> int:
-        return self.ordering_level[variable.name]
+    def _sorted_key(self, variable: Variable) -> tuple[int, tuple[str, str], str]:
+        # the ordering ranks names only: counterfactual variables of the same name
+        # tie, and the tie is broken by their interventions so the result does not
+        # depend on the order in which they were written
+        return (
+            self.ordering_level[variable.name],
+            _variable_sort_key(variable),
+            variable.to_y0(),
+        )
 
     def canonicalize(self, expression: Expression) -> Expression:
         """Canonicalize an expression.
